@@ -10,6 +10,8 @@ import (
 	"path/filepath"
 	"regexp"
 	"slices"
+	"strconv"
+	"strings"
 	"sync"
 
 	"github.com/jessevdk/go-flags"
@@ -380,7 +382,7 @@ func removeLineFromFile(filePath, line string) error {
 
 	scanner := bufio.NewScanner(f)
 	for scanner.Scan() {
-		if scanner.Text() != line {
+		if !sameOption(scanner.Text(), line) {
 			_, err := buf.Write(scanner.Bytes())
 			if err != nil {
 				return err
@@ -400,6 +402,27 @@ func removeLineFromFile(filePath, line string) error {
 		return err
 	}
 	return nil
+}
+
+// sameOption reports whether the text of a policy file line sets the option
+// given as "key=value" the way the ini reader sees it: whitespace around the
+// key and the value is ignored and a quoted value is unquoted.
+func sameOption(text, option string) bool {
+	if text == option {
+		return true
+	}
+	want := strings.SplitN(option, "=", 2)
+	got := strings.SplitN(strings.TrimSpace(text), "=", 2)
+	if len(want) != 2 || len(got) != 2 {
+		return false
+	}
+	value := strings.TrimSpace(got[1])
+	if len(value) != 0 && value[0] == '"' {
+		if v, err := strconv.Unquote(value); err == nil {
+			value = v
+		}
+	}
+	return strings.TrimSpace(got[0]) == want[0] && value == want[1]
 }
 
 func (p *Policy) reload(r io.Reader) error {
